@@ -61,10 +61,11 @@ type State struct {
 	armed map[*ssa.Defer]Term
 	epoch int
 	aepoch int // epoch of the atomic families (atomicval$, atomic$...)
+	sepoch int // epoch of the shared families under interference (chan$, smap$, ghost$)
 }
 
 func (s *State) clone() *State {
-	n := &State{pc: s.pc, epoch: s.epoch, aepoch: s.aepoch, cells: make(map[cellKey]SV, len(s.cells)), heap: make(map[string]Term, len(s.heap)), armed: make(map[*ssa.Defer]Term, len(s.armed))}
+	n := &State{pc: s.pc, epoch: s.epoch, aepoch: s.aepoch, sepoch: s.sepoch, cells: make(map[cellKey]SV, len(s.cells)), heap: make(map[string]Term, len(s.heap)), armed: make(map[*ssa.Defer]Term, len(s.armed))}
 	for k, v := range s.cells {
 		n.cells[k] = v
 	}
@@ -234,6 +235,9 @@ func (c *FnCtx) initHeap(st *State, name string, sort Sort) Term {
 	if atomicHeap(name) {
 		return c.vc.Const(fmt.Sprintf("A%d$%s", st.aepoch, name), sort)
 	}
+	if st.sepoch > 0 && sharedHeap(name) && name != "chan$cap" {
+		return c.vc.Const(fmt.Sprintf("S%d$%s", st.sepoch, name), sort)
+	}
 	if pinnedHeap(name) {
 		epoch = 0
 	}
@@ -282,37 +286,37 @@ func (c *FnCtx) writeLeaf(st *State, loc *Loc, lf Leaf, v Term) {
 }
 
 // subRef gives the reference of a struct stored by value at loc.
-// subAxioms: sub-references of different fields are different objects, and the map from the
-// enclosing object to the embedded one is injective.
-func (c *FnCtx) subAxioms(name string, f string, arity int, keySort Sort) {
-	if _, done := c.subFuncs[name]; done {
+// subFacts: sub-references of different fields are different objects, and the map from the
+// enclosing object to the embedded one is injective. Instantiated per term (quantifier-free).
+func (c *FnCtx) subFacts(name string, f string, sub Term, x Term, k *Term) {
+	if c.vc.quant > 0 || c.subDone[sub.S] {
 		return
 	}
-	id := len(c.subFuncs) + 1
-	tag := c.vc.Declare("subtag", []Sort{SInt}, SInt)
-	if arity == 1 {
-		inv := c.vc.Declare("inv$"+name, []Sort{SInt}, SInt)
-		c.vc.Assert(Term{fmt.Sprintf("(forall ((x Int)) (! (and (= (%s (%s x)) x) (= (%s (%s x)) %d)) :pattern ((%s x))))", inv, f, tag, f, id, f), SBool})
-	} else {
-		inv := c.vc.Declare("inv$"+name, []Sort{SInt}, SInt)
-		c.vc.Assert(Term{fmt.Sprintf("(forall ((x Int) (k %s)) (! (and (= (%s (%s x k)) x) (= (%s (%s x k)) %d)) :pattern ((%s x k))))", keySort, inv, f, tag, f, id, f), SBool})
+	c.subDone[sub.S] = true
+	id, ok := c.subIDs[name]
+	if !ok {
+		id = len(c.subIDs) + 1
+		c.subIDs[name] = id
 	}
+	tag := c.vc.Declare("subtag", []Sort{SInt}, SInt)
+	inv := c.vc.Declare("inv$"+name, []Sort{SInt}, SInt)
+	c.vc.Assert(Term{fmt.Sprintf("(and (= (%s %s) %s) (= (%s %s) %d))", inv, sub.S, x.S, tag, sub.S, id), SBool})
 }
 
 func (c *FnCtx) subRef(loc *Loc) Term {
 	name := "sub$" + loc.Prefix
 	if loc.Idx2 != nil {
 		f := c.vc.Declare(name, []Sort{SInt, loc.Idx2.Sort}, SInt)
-		c.subAxioms(name, f, 2, loc.Idx2.Sort)
 		c.subFuncs[name] = 2
 		r := Term{fmt.Sprintf("(%s %s %s)", f, loc.Idx.S, loc.Idx2.S), SInt}
+		c.subFacts(name, f, r, loc.Idx, loc.Idx2)
 		c.noteSubRoot(r, loc.Idx)
 		return r
 	}
 	f := c.vc.Declare(name, []Sort{SInt}, SInt)
-	c.subAxioms(name, f, 1, SInt)
 	c.subFuncs[name] = 1
 	r := Term{fmt.Sprintf("(%s %s)", f, loc.Idx.S), SInt}
+	c.subFacts(name, f, r, loc.Idx, nil)
 	c.noteSubRoot(r, loc.Idx)
 	return r
 }
@@ -778,7 +782,7 @@ func (c *FnCtx) mergeStates(ins []edgeState) *State {
 	last := ins[len(ins)-1].st
 	sameEpoch := true
 	for _, e := range ins {
-		if e.st.epoch != out.epoch || e.st.aepoch != out.aepoch {
+		if e.st.epoch != out.epoch || e.st.aepoch != out.aepoch || e.st.sepoch != out.sepoch {
 			sameEpoch = false
 		}
 	}
@@ -793,6 +797,9 @@ func (c *FnCtx) mergeStates(ins []edgeState) *State {
 		c.epochs++
 		out.epoch = c.epochs
 		out.aepoch = c.epochs
+		if out.sepoch > 0 {
+			out.sepoch = c.epochs
+		}
 	}
 	// fold from the last to the first
 	for i := len(ins) - 2; i >= 0; i-- {
